@@ -58,6 +58,7 @@ type c06 struct {
 	fsByDir map[string]*vfs.MemFS // data dir -> file system of that incarnation
 	prop    string
 	snapshotted map[string]bool // nodes that were (re)built from a snapshot at some point
+	noStrictSnapshots bool      // (kept for the record: before the snapshot code was routed through the simulated file system)
 	cutEmpty    map[string]bool // nodes whose whole log a leader has cut with Truncate(-1) and that have not been sent the snapshot yet
 }
 
@@ -102,7 +103,7 @@ func (c *c06) newTerm(n string) (*proto.EntryId, error) {
 			time.Sleep(50 * time.Millisecond)
 			continue
 		}
-		if attempt < 3 && strings.Contains(err.Error(), "lock held by current process") {
+		if attempt < 3 && (strings.Contains(err.Error(), "lock held by current process") || strings.Contains(err.Error(), "resource temporarily unavailable")) {
 			c.r.Count("diag_follower_wedged_after_snapshot", 1)
 			c.crashNode(n, false)
 			if !c.start(n) {
@@ -176,7 +177,7 @@ func (c *c06) elect(g *Rng) bool {
 // run reports afterwards (writes that cannot commit, elections that time out) says nothing about C07; the
 // same operations run with working snapshots under C06.
 func (c *c06) strictNeedsSnapshot(n string) {
-	if c.strict {
+	if c.strict && c.noStrictSnapshots {
 		c.r.Count("strict_mode_follower_needs_snapshot", 1)
 		c.r.Abandon(fmt.Sprintf("follower %s needs a snapshot, which the strict file-system mode cannot deliver (after: %s)", n, lastN(c.wl.prog, 5)))
 	}
@@ -236,6 +237,25 @@ func (c *c06) settleAndFold() bool {
 
 // fold brings the model up to the leader's commit offset (entries are remembered via onFold).
 func (c *c06) fold() bool {
+	// a leader that was rebuilt from a snapshot no longer holds the entries below it: what the model has not
+	// seen of them yet is read from another replica's log (everything a snapshot covers is committed)
+	if lv := c.wl.c.view(); lv != nil && lv.Wal != nil && lv.Wal.FirstOffset() > c.wl.c.folded+1 {
+		for _, n := range c.names {
+			if n == c.leader || !c.live(n) {
+				continue
+			}
+			v, ok := c.w.Node(n).Server.SimShardView(0)
+			if !ok || v.Wal == nil || v.Wal.FirstOffset() > c.wl.c.folded+1 || v.Wal.FirstOffset() < 0 {
+				continue
+			}
+			if err := c.wl.c.foldFrom(v.Wal, lv.Wal.FirstOffset()-1); err != nil {
+				c.wl.fail("log-error", "folding the log of %s below the snapshot of leader %s: %v", n, c.leader, err)
+				return false
+			}
+			c.r.Count("folds_below_a_snapshot_from_another_replica", 1)
+			break
+		}
+	}
 	if _, _, err := c.wl.c.foldNew(); err != nil {
 		c.wl.fail("log-error", "folding the log of leader %s: %v", c.leader, err)
 		return false
@@ -364,6 +384,25 @@ func (c *c06) crashNode(n string, power bool) {
 		// (process kill) state, the zombie keeps the old object
 		if fs := c.fsByDir[oldDB]; fs != nil {
 			c.fsByDir[oldDB] = fs.SimClone(power)
+			if os.Getenv("OXSIM_DEBUG_FS") != "" {
+				var walk func(d string, depth int)
+				walk = func(d string, depth int) {
+					names, _ := c.fsByDir[oldDB].List(d)
+					sort.Strings(names)
+					for _, nm := range names {
+						p := d + "/" + nm
+						st, err := c.fsByDir[oldDB].Stat(p)
+						if err != nil {
+							continue
+						}
+						c.r.Logf("fs after crash of %s (power=%v): %s%s size=%d dir=%v", n, power, strings.Repeat("  ", depth), p[len(oldDB):], st.Size(), st.IsDir())
+						if st.IsDir() && depth < 4 {
+							walk(p, depth+1)
+						}
+					}
+				}
+				walk(oldDB, 0)
+			}
 		}
 	}
 	old.Crash(c.dir(n), power, []int{512, 4096}[int(H(c.r.Seed, "pg", n, c.dirSeq[n])%2)])
@@ -791,6 +830,29 @@ func runReplicas(r *Run, prop string) {
 					c.fsByDir[dataDir] = fs
 				}
 				return fs
+			}
+			// in a third of the runs the snapshot sender and loader read and write the engine's files in
+			// the same strict file system (installing a snapshot is then subject to the same crash model);
+			// in the others snapshots cannot be delivered and the run stops judging once one is needed
+			// (switched off: the strict in-memory file system forgets a whole directory tree at a power
+			// loss unless every parent directory was synced, which neither the engine nor oxia does for the
+			// levels above the shard directory; a snapshot-built replica -- whose log does not start at 0 --
+			// then cannot be told apart from a genuinely broken one.  See DESIGN.md section 9.)
+			c.noStrictSnapshots = !NewRng(r.Seed, "c07-strict-snapshots").Chance(33) || os.Getenv("OXSIM_STRICT_SNAPSHOTS") == ""
+			r.Knobs["strict_fs_snapshots"] = !c.noStrictSnapshots
+			if !c.noStrictSnapshots {
+				r.Count("runs_with_strict_fs_snapshots", 1)
+			}
+			kv.SimFSOf = func(path string) vfs.FS {
+				if c.noStrictSnapshots {
+					return nil
+				}
+				for dir, fs := range c.fsByDir {
+					if path == dir || strings.HasPrefix(path, dir+"/") {
+						return fs
+					}
+				}
+				return nil
 			}
 		}
 	}})
